@@ -11,10 +11,14 @@
 (*  strace  (V) a trace of signatures produced by the implementation:      *)
 (*          per-event clauses and the nonce / determinism ledger           *)
 (*  ledger  (V) the ledger alone over all traces of a run                  *)
+(*  envgen  (G) the behaviours of the environment of EcdsaEnv (Seed,       *)
+(*          SaveState, RestoreState, ForkSign interleaved with sign calls) *)
+(*          with the arguments of every sign call                          *)
+(*  envtrace (V) the r, s recorded while replaying one such behaviour      *)
 (* Oracle facts (fields valid, oncurve, eq) come from the reference        *)
 (* secp256k1 implementation; everything else is decided here.              *)
 (***************************************************************************)
-EXTENDS Ecdsa, Json, IOUtils, TLC
+EXTENDS EcdsaEnv, Json, IOUtils
 
 ASSUME Half256 = HalfByDivision(Order256)
 
@@ -90,8 +94,24 @@ RunLedger(st, evs, i, acc) ==
     IF i > Len(evs) THEN acc
     ELSE RunLedger(LedgerNext(st, evs[i]), evs, i + 1, Append(acc, LedgerFails(st, evs[i])))
 
+\* a behaviour with the arguments of its sign calls filled in (indices of key, message and explicit nonce)
+RECURSIVE SignIndex(_, _)
+SignIndex(b, i) == IF i = 0 THEN 0 ELSE SignIndex(b, i - 1) + (IF IsSign(b[i]) THEN 1 ELSE 0)
+Filled(b, plan) ==
+    [i \in 1..Len(b) |->
+        LET n == SignIndex(b, i) IN
+        IF IsSign(b[i]) THEN [a |-> b[i], mode |-> ModeOf(plan, n), key |-> PairOf(n)[1], z |-> PairOf(n)[2], kk |-> KOf(n)]
+        ELSE [a |-> b[i], mode |-> "", key |-> 0, z |-> 0, kk |-> 0]]
+EnvTable(plans, maxLen) ==
+    SX!SetToSeq({ [plan |-> plans[j], steps |-> Filled(b, plans[j])] :
+                  j \in 1..Len(plans), b \in UNION {Behaviours(l) : l \in 2..maxLen} })
+
 Judge(rec) ==
-  CASE rec.k = "vgen" ->
+  CASE rec.k = "envgen" -> [v |-> "ok", dev |-> "", exp |-> <<>>, behs |-> EnvTable(rec.plans, rec.maxlen)]
+    [] rec.k = "envtrace" ->
+         LET fs == EnvJudge(rec.events, N) IN
+         [v |-> IF Blamed(fs) THEN "events" ELSE "ok", dev |-> "", exp |-> <<>>, evs |-> fs]
+    [] rec.k = "vgen" ->
          LET t == Table(rec) IN
          [v |-> "ok", dev |-> "", exp |-> <<>>, cases |-> [i \in 1..Len(t) |-> Case(t[i][1], t[i][2], t[i][3], t[i][4], t[i][5], rec)]]
     [] rec.k = "denote" ->
